@@ -58,7 +58,7 @@ def lex(g, data, skip_ws=True, skip_nl=True, matchers=None):
         out.toks.append((best, pos, bl, line, col))
         line, col = advance(line, col, data[pos:pos + bl]); pos += bl
 
-TAG = {'V': 0, 'W': 1, 'M': 9}
+TAG = {'V': 0, 'W': 1, 'M': 9, 'B': 8}
 
 def lex_script(g, data, skip_ws=True, skip_nl=True):
     """tokens as the scripted custom lexer answers; also the expected log entry of every lexer call"""
@@ -130,7 +130,9 @@ def expect(g, tb, data, skip_ws=True, skip_nl=True, ctx_mode=None, matchers=None
             for kid in node.kids:
                 if kid.rule is not None:
                     vt = g.vtypes[g.rules[kid.rule].lhs]
-                    args.append(('i%d,' if vt == 'I' else 'v%d,') % kid_val(kid))
+                    if vt == 'B':
+                        bid, items = kid_val(kid); args.append('b%d[%s],' % (bid, '.'.join(str(x) for x in items)))
+                    else: args.append(('i%d,' if vt == 'I' else 'v%d,') % kid_val(kid))
                 elif kid.term == g.ERR:
                     args.append('e,')
                 else:
@@ -141,13 +143,22 @@ def expect(g, tb, data, skip_ws=True, skip_nl=True, ctx_mode=None, matchers=None
                     else: args.append('s%d:%d:%d:%d,' % (tk[3], tk[4], tk[1], tk[2]))
             vt = g.vtypes[rule.lhs]
             if rule.ftor == 'f':
-                v = fresh(); ev.append('r%d(%s)=%d;' % (r, ''.join(args), v)); node_val[id(node)] = v
+                v = fresh(); ev.append('r%d(%s)=%d;' % (r, ''.join(args), v)); node_val[id(node)] = (v, []) if vt == 'B' else v
+            elif rule.ftor == 'nb':
+                node_val[id(node)] = (fresh(), [])                   # create<Bag>{}: a fresh empty container, no event
+            elif rule.ftor[:2] in ('pb', 'eb'):
+                ci, ai = (int(x) for x in rule.ftor[2:].split(','))
+                bid, items = kid_val(node.kids[ci - 1]); vid = kid_val(node.kids[ai - 1])
+                # push_back copies the element by definition: the observed log shows C<id>; the judges strip copy events before comparing
+                node_val[id(node)] = (bid, items + [vid])
             elif rule.ftor == 'x':
                 if ctx_mode == 21: hdr = '=c#0'
                 elif ctx_mode == 22: hdr = '~m#%d' % xcount
                 else: hdr = '=m#%d' % xcount
                 xcount += 1
                 v = fresh(); ev.append('x%d[%s](%s)=%d;' % (r, hdr, ''.join(args), v)); node_val[id(node)] = v
+            elif rule.ftor == 'd' and vt == 'B':
+                node_val[id(node)] = kid_val(node.kids[0]) if node.kids else (fresh(), [])
             elif rule.ftor == 'd':
                 kids = node.kids
                 if len(kids) == 1 and kids[0].rule is not None and g.vtypes[g.rules[kids[0].rule].lhs] == vt:
@@ -177,6 +188,7 @@ def expect(g, tb, data, skip_ws=True, skip_nl=True, ctx_mode=None, matchers=None
     ex.trace = trace
     ex.xcount = xcount
     ex.root = node_val.get(id(res.tree)) if res.ok else 0
+    if isinstance(ex.root, tuple): ex.root = ex.root[0]
     node_val.clear()
     # ---- messages (non-verbose)
     msgs = []
